@@ -5,15 +5,33 @@ def main(tier, seed, replay):
     return run_check(
         "C20", tier, seed, replay,
         tables=["TablesClean"],
-        model_targets=["Gen2/Clean.vo", "Corr/C20Corr.vo"],
-        prop_module="Props.C20",
+        model_targets=["Gen2/Clean.vo", "Gen2/CleanHistory.vo", "Corr/C20Corr.vo"],
+        prop_module=["Props.C20", "Props.C20_history"],
         driver="c20",
         corr_name="corr:clean-tree (model clean_target vs real CleanTargetDir: resulting tree and success flag)",
         trusted=[
             "modelled, not verified: the file system (os.ReadDir sorted listing, os.Remove failing on a non-empty directory, "
-            "os.Stat) - a directory is its sorted list of children; symlinks and permissions are outside the model",
-            "regeneration ('regenerating after cleaning reproduces the same files') is covered by C12's generator runs, not here",
+            "os.Stat, os.MkdirAll, os.WriteFile) - a directory is its sorted list of children; symlinks and permissions are outside "
+            "the model (symlinks are exercised by the driver's oracle; an unwritable directory only when the check does not run as root)",
+            "WHAT THE COQ THEOREMS COVER: (1) Props/C20.v - the model of CleanTargetDir (Gen2/Clean.v, files and directories are "
+            "distinct constructors: a directory named x.gr.go is a directory), compared with the real CleanTargetDir of both modules "
+            "on every tree case (whole resulting tree, contents included, and the success flag); (2) Props/C20_history.v - histories of "
+            "any number of generator runs on one directory, each run modelled as clean + MkdirAll + a list of writes of owned names "
+            "(MkdirAll/Remove/WriteFile, aborted at the first failure): foreign files are invariant over every history (successful or "
+            "failed runs), and a successful run leaves exactly the files it wrote as owned files whatever happened before "
+            "(history_keeps_foreign_files, regeneration_after_any_history, regeneration_reproduces; by induction over the history)",
+            "ORACLE-ONLY (tested, not proved): that the real cmd.GenerateCode does nothing to the file system except calling "
+            "CleanTargetDir and writing owned names, that it writes the same files for the same schema set, and that a regeneration "
+            "succeeds.  The driver runs the real cmd.GenerateCode of both modules in child processes over generate / regenerate / "
+            "changed-schema / failing-generation histories (obstacle at every stage, namespaces and package roots with vendor, internal, "
+            "testdata, .hidden, ... segments, output directory given by path or as '.') with foreign files present, and checks after EVERY "
+            "run that nothing outside the output directory changed, every not-owned file is byte-identical, every new file has an owned "
+            "name, and that a run with no obstacle succeeds and reproduces the owned files of a generation into a fresh directory.  No "
+            "model is evaluated on these histories; the write model of Gen2/CleanHistory.v is not compared with the implementation",
+            "determinism and compilability of the generated code itself are C12's, not checked here; the schema sets used in the "
+            "histories are small (records, enums, a typeref made custom by a hand-written file, one collection resource)",
+            "scratch trees are built on tmpfs (/dev/shm) when it is available, else under the system temporary directory",
         ],
         assume=["names within a directory are unique and listed in os.ReadDir (byte-sorted) order"],
-        coqchk_modules=["GR.Props.C20"],
+        coqchk_modules=["GR.Props.C20", "GR.Props.C20_history"],
     )
